@@ -710,3 +710,5 @@ M('C09', 'refactor2-clock-locals-order', AUTH, """    let last_rotation_timestam
         .get(&DataKey::LastRotationTimestamp)
         .unwrap_or_default();
 """, equiv=True)
+M('C10', 'refactor2-amount-try_from', ABI, """                    amount: to_i128(decoded.amount)?,""", """                    amount: i128::try_from(decoded.amount).map_err(|_| ContractError::InvalidAmount)?,""", equiv=True)
+MUTANTS.append(dict(MUTANTS[-1], prop='C05', id='refactor2-amount-try_from-c05'))
